@@ -1388,8 +1388,21 @@ def kkt_chol2(G, dims, A, mnl = 0):
 
     def factor(W, H = None, Df = None):
 
+        # The work arrays and the symbolic factorization set up in the 
+        # first call are only valid for the sparsity patterns Df and H 
+        # had in that call.
+        Hpattern = type(H) is spmatrix and (list(H.I), list(H.J))
+        if not F['firstcall']:
+            if mnl and type(F['Dfs']) is spmatrix and (type(Df) is not
+                spmatrix or list(Df.I) != list(F['Dfs'].I) or
+                list(Df.J) != list(F['Dfs'].J)):
+                F['firstcall'] = True
+            if type(F['S']) is spmatrix and Hpattern != F['Hpattern']:
+                F['firstcall'] = True
+
         if F['firstcall']:
             F['singular'] = False
+            F['Hpattern'] = Hpattern
             if type(G) is matrix: 
                 F['Gs'] = matrix(0.0, G.size) 
             else:
